@@ -74,6 +74,9 @@ structure Block (β : Type) where
   isvs : List (VarD β)
   esvs : List (VarD β)
   pars : List (ParD β)
+  /-- variables that are not listed in any names array but whose bounds are exported (the
+  temperature when it is removed from the external state variables) -/
+  hidden : List (VarD β) := []
   deriving Inhabited
 
 inductive Val (β : Type) where
@@ -133,7 +136,7 @@ def dfltSlots (p : Name) (q : ParD β) : List (Name × Option (Val β)) :=
     (varSym p q.var.ext (some i) "ParameterDefaultValue", (q.dflt[i]?).map Val.real)
 
 def pvars (b : Block β) : List (VarD β) := b.pars.map (·.var)
-def allVars (b : Block β) : List (VarD β) := b.mps ++ b.isvs ++ b.esvs ++ pvars b
+def allVars (b : Block β) : List (VarD β) := b.mps ++ b.isvs ++ b.esvs ++ pvars b ++ b.hidden
 
 /-- every symbol slot of a block: arrays first, then the per-variable slots -/
 def slots (p : Name) (b : Block β) : List (Name × Option (Val β)) :=
@@ -190,5 +193,29 @@ def readTypes (t : SymTab β) (p : Name) (cat : String) : Option (List Int) :=
 `none` = no such symbol (has… = false, get… raises) -/
 def readValue (t : SymTab β) (p n : Name) (sfx : String) : Option β :=
   (readSym p n sfx).bind (getReal t)
+
+end TfelVerif.C45
+
+namespace TfelVerif.C45
+variable {β : Type}
+
+/-! ### readers with the hypothesis-specialised prefix first (`<f>_<h>_…` then `<f>_…`) -/
+
+def readNames2 (t : SymTab β) (ph p : Name) (cat : String) : Option (List Name) :=
+  match lookup2 t (catSym ph ("n" ++ cat)) (catSym p ("n" ++ cat)),
+        lookup2 t (catSym ph cat) (catSym p cat) with
+  | some (.num n), some (.strs l) => some (l.take n)
+  | _, _ => none
+
+def readTypes2 (t : SymTab β) (ph p : Name) (cat : String) : Option (List Int) :=
+  match lookup2 t (catSym ph ("n" ++ cat)) (catSym p ("n" ++ cat)),
+        lookup2 t (catSym ph (cat ++ "Types")) (catSym p (cat ++ "Types")) with
+  | some (.num n), some (.ints l) => some (l.take n)
+  | _, _ => none
+
+def readValue2 (t : SymTab β) (ph p n : Name) (sfx : String) : Option β :=
+  match readSym ph n sfx, readSym p n sfx with
+  | some k₁, some k₂ => match lookup2 t k₁ k₂ with | some (.real x) => some x | _ => none
+  | _, _ => none
 
 end TfelVerif.C45
